@@ -92,6 +92,11 @@ def make_form(form, ds=None):
             return np.array(idx, dtype=np.int32)
         raise ValueError(how)
     if k == 'mask':
+        how = form.get('as', 'np')
+        if how == 'list':
+            return [bool(b) for b in form['bits']]  # a boolean mask given as a plain Python list
+        if how == 'tuple':
+            return tuple(bool(b) for b in form['bits'])
         return np.array(form['bits'], dtype=bool)
     if k == 'keys':
         return list(form['keys']) if form.get('as', 'list') == 'list' else tuple(form['keys'])
@@ -211,6 +216,8 @@ def build(node, env=None, path='r'):
     if op == 'shard':
         if node.get('via') == 'split':
             return done(ds.split(node['k'])[node['i']])
+        if node.get('via') == 'shard_neg':
+            return done(ds.shard(node['k'], node['i'] - node['k']))  # shard(k, i) == split(k)[i], also for i < 0
         return done(ds.shard(node['k'], node['i']))
     if op == 'batch':
         return done(ds.batch(node['n'], drop_last=node['drop_last']))
